@@ -243,7 +243,7 @@ pub fn property() -> Property {
             Box::new(Sub {
                 name: "mackay-neal",
                 rule: "configurations rows 2..=12, cols 2..=24 (thorough 20 x 48), wc 1..=min(4, rows), wr = ceil(cols*wc/rows) + {0,1,2}, both fill policies, min girth {none,4,6,8} with 0..=30 girth trials, backtracking 0..=3 columns x 0..=5 trials, any u64 seed; on success: size, every column weight = wc, every row weight <= wr, own girth >= min girth, uniform policy without girth constraint: row weights differ by <= 1; same (config, seed) twice (second run on another thread) identical; seeds s..s+3 validated too and, when all succeed in a roomy configuration, not all identical; search(start, tries<=64) under rayon pools of 1/2/4/16 threads (start also near u64::MAX - tries): Some((s,h)) has start <= s < start+tries and h == run(s), None only if the sequential oracle finds every seed failing. Non-trivial = success where a neighbouring seed fails with backtracking/girth retries configured, or a search range with mixed outcomes",
-                cases: |t| t.pick(6_000, 300_000),
+                cases: |t| t.pick(12_000, 400_000),
                 strategy: mn_strategy,
                 check: check_mn,
                 health: &[("run-succeeded", 0.30), ("search-range-mixed", 0.08), ("backtracking-or-girth-retry-mattered", 0.015)],
@@ -251,7 +251,7 @@ pub fn property() -> Property {
             Box::new(Sub {
                 name: "peg",
                 rule: "rows 1..=10, cols 1..=20 (thorough 16 x 40), wc 1..=5 incl. wc > rows, any seed: column weights = min(wc, rows); for every column in order there is an ordering of its entries such that each, given all earlier columns and the earlier entries of this column, lies on a check that the own BFS finds unreachable from the column (or at maximal distance if all are reachable) and of minimum weight among those (exhaustive search over orderings); determinism across threads; twelve consecutive seeds are not all identical when rows, cols >= 4 and wc < rows. Non-trivial = at least two columns of weight >= 2",
-                cases: |t| t.pick(6_000, 300_000),
+                cases: |t| t.pick(12_000, 400_000),
                 strategy: peg_strategy,
                 check: check_peg,
                 health: &[],
